@@ -87,6 +87,17 @@ func (fr *frame) external(st *state, f *ssa.Function, c *ssa.CallCommon, pos tok
 		if ct.HasMod {
 			eff = ct.Modifies
 		}
+		if name == "(*reflect.MapIter).Next" {
+			// the ghost position of this iterator only: a point update at the receiver
+			eff = []string{"G|reflect.MapIter.pos|Int#P0"}
+			fr.calleeArgs = func(i int) string {
+				if i < len(args) {
+					return args[i]
+				}
+				return ""
+			}
+			defer func() { fr.calleeArgs = nil }()
+		}
 		return fr.specCall(st, ct, "ext:"+name, fr.anchorText(pos, "call"), pos, vars, eff, sig)
 	}
 	fc.unmodelled[name] = true
